@@ -174,7 +174,7 @@ def run_c10(tier):
         path = os.path.join(work, "dims.txt")
         with open(path, "w") as f:
             f.write("\n".join(sorted(dims)) + "\n")
-        tiers = ["pinned", "debug"] if tier == "quick" else ["pinned", "debug", "simd"]
+        tiers = ["pinned", "simd"] if tier == "quick" else ["pinned", "debug", "simd"]   # simd: the F16C half-float path
         traces, cmds = [], []
         for t in tiers:
             drv = vlib.build_driver("drv_dimension", t, DIM_LIB, extra_flags=["-std=gnu11"])
@@ -225,6 +225,7 @@ def run_c10(tier):
 
 def prebuild():
     vlib.build_driver("drv_dimension", "pinned", DIM_LIB, extra_flags=["-std=gnu11"])
+    vlib.build_driver("drv_dimension", "simd", DIM_LIB, extra_flags=["-std=gnu11"])
     vlib.build_driver("drv_packed", "pinned", [], extra_flags=["-std=gnu11"], extra_src=["pk_gen.c"])
     vlib.build_driver("drv_bitstream", "pinned", [], extra_flags=["-std=gnu11"], extra_src=BS_SRC)
 
